@@ -83,3 +83,148 @@ pub fn sample_indices(rng: &mut crate::rng::Rng, n: usize) -> Vec<usize> {
 pub fn st_of<P: Fields>() -> St {
     P::ST
 }
+
+/// The std `Iterator` protocol on a crate iterator: whatever entry point drives it (`nth`, `skip`, `step_by`,
+/// `last`, `count`, polling after the end), the items must be those that plain `next()` yields. `make` creates a
+/// fresh iterator over the same data and must return the crate's iterator itself (std adaptors such as `map` do not
+/// forward `nth`); `show` renders an item. Returns false after reporting a violation.
+pub fn iter_protocol<T, I: Iterator<Item = T>, F: Fn() -> I, S: Fn(T) -> String>(ctx: &mut crate::ctx::Ctx, label: &str, make: F, show: S, cap: usize, stays_exhausted: bool) -> bool {
+    let base: Vec<String> = make().take(cap + 1).map(|x| show(x)).collect();
+    if base.len() > cap {
+        return true; // not drained within the cap: nothing to compare against
+    }
+    let n = base.len();
+    ctx.count("iterator-protocol:iterators");
+    let fail = |ctx: &mut crate::ctx::Ctx, what: String| {
+        ctx.violation(&format!("{label}:iterator-protocol"), format!("{label} ({n} items by next()): {what}"));
+        false
+    };
+    let (lo, hi) = make().size_hint();
+    if lo > n || hi.map(|h| h < n).unwrap_or(false) {
+        return fail(ctx, format!("size_hint ({lo}, {hi:?}) excludes the actual count"));
+    }
+    let mut ks = vec![0usize, 1, 2, n / 2, n.saturating_sub(1), n, n + 1];
+    ks.sort();
+    ks.dedup();
+    for &k in &ks {
+        ctx.eval();
+        let got = make().nth(k).map(|x| show(x));
+        if got.as_ref() != base.get(k) {
+            return fail(ctx, format!("fresh nth({k}) = {:?}, next()-order item is {:?}", got, base.get(k)));
+        }
+        // a used iterator: next() first, then nth(k), then next() again (never polled after a None unless the
+        // iterator is one that must stay exhausted)
+        if n == 0 && !stays_exhausted {
+            continue;
+        }
+        let mut it = make();
+        let first = it.next().map(|x| show(x));
+        if first.as_ref() != base.first() {
+            return fail(ctx, "first next() is unstable".to_string());
+        }
+        let got = it.nth(k).map(|x| show(x));
+        if got.as_ref() != base.get(1 + k) {
+            return fail(ctx, format!("next(); nth({k}) = {:?}, expected item {} = {:?}", got, 1 + k, base.get(1 + k)));
+        }
+        let after = it.next().map(|x| show(x));
+        let want_after = base.get(2 + k);
+        if (1 + k < n || stays_exhausted) && after.as_ref() != want_after {
+            return fail(ctx, format!("next(); nth({k}); next() = {:?}, expected item {} = {:?}", after, 2 + k, want_after));
+        }
+        let got: Vec<String> = make().skip(k).take(cap + 1).map(|x| show(x)).collect();
+        if got[..] != base[k.min(n)..] {
+            return fail(ctx, format!("skip({k}) yields {} items, expected {}", got.len(), n - k.min(n)));
+        }
+    }
+    for step in [2usize, 3] {
+        let got: Vec<String> = make().step_by(step).take(cap + 1).map(|x| show(x)).collect();
+        let want: Vec<&String> = base.iter().step_by(step).collect();
+        if got.len() != want.len() || got.iter().zip(want.iter()).any(|(a, b)| &a != b) {
+            return fail(ctx, format!("step_by({step}) yields {} items {:?}…, expected {}", got.len(), got.iter().take(3).collect::<Vec<_>>(), want.len()));
+        }
+    }
+    let last = make().last().map(|x| show(x));
+    if last.as_ref() != base.last() {
+        return fail(ctx, format!("last() = {:?}, expected {:?}", last, base.last()));
+    }
+    if make().count() != n {
+        return fail(ctx, format!("count() = {}", make().count()));
+    }
+    if stays_exhausted {
+        let mut it = make();
+        let none = it.nth(n);
+        let again = it.next();
+        if none.is_some() || again.is_some() {
+            return fail(ctx, format!("nth({n}) past the end = {:?}, then next() = {:?}", none.map(|x| show(x)), again.map(|x| show(x))));
+        }
+    }
+    true
+}
+
+/// Integer literals (>= 4096) that occur in the crate's current sources outside the constant tables, plus a fixed pool
+/// of round sizes: thresholds at which code that works "in pieces" (buffers, chunks, limits) changes behaviour. Workloads
+/// derive counts and sizes from them (multiples of floor(L / entry size), L itself, L +- 1).
+pub fn size_thresholds() -> &'static [u64] {
+    static POOL: std::sync::OnceLock<Vec<u64>> = std::sync::OnceLock::new();
+    POOL.get_or_init(|| {
+        let mut v: Vec<u64> = (12..=22).map(|k| 1u64 << k).collect();
+        v.extend([10_000, 100_000, 1_000_000, 500_000, 65_535, 65_536 + 4096]);
+        #[cfg(not(miri))]
+        if let Ok(rd) = std::fs::read_dir("/repo/src") {
+            for e in rd.flatten() {
+                let p = e.path();
+                if p.extension().map(|x| x != "rs").unwrap_or(true) || p.file_name().map(|n| n == "abi.rs" || n == "to_str.rs").unwrap_or(true) {
+                    continue;
+                }
+                if let Ok(text) = std::fs::read_to_string(&p) {
+                    v.extend(int_literals(&text).into_iter().filter(|x| (4096..=(1 << 26)).contains(x)));
+                }
+            }
+        }
+        v.sort_unstable();
+        v.dedup();
+        v
+    })
+}
+
+/// decimal and 0x literals of a Rust source text (underscores allowed; suffixes ignored)
+pub fn int_literals(text: &str) -> Vec<u64> {
+    let b = text.as_bytes();
+    let mut out = Vec::new();
+    let mut i = 0;
+    while i < b.len() {
+        let c = b[i];
+        let prev_ident = i > 0 && (b[i - 1].is_ascii_alphanumeric() || b[i - 1] == b'_' || b[i - 1] == b'.');
+        if c.is_ascii_digit() && !prev_ident {
+            let (radix, mut j) = if c == b'0' && i + 1 < b.len() && (b[i + 1] == b'x' || b[i + 1] == b'X') { (16, i + 2) } else { (10, i) };
+            let mut val: u128 = 0;
+            let mut any = false;
+            while j < b.len() {
+                let d = b[j];
+                if d == b'_' {
+                    j += 1;
+                    continue;
+                }
+                match (d as char).to_digit(radix) {
+                    Some(x) => {
+                        val = val.saturating_mul(radix as u128).saturating_add(x as u128);
+                        any = true;
+                        j += 1;
+                    }
+                    None => break,
+                }
+            }
+            if any && val <= u64::MAX as u128 {
+                out.push(val as u64);
+            }
+            // skip a type suffix / the rest of the token
+            while j < b.len() && (b[j].is_ascii_alphanumeric() || b[j] == b'_') {
+                j += 1;
+            }
+            i = j.max(i + 1);
+        } else {
+            i += 1;
+        }
+    }
+    out
+}
